@@ -365,7 +365,8 @@ class FakeSnowflakeCursor:
         self._rowcount = self._arrow_table.num_rows if affected_count is None else affected_count
 
         self._last_sql = result_sql or sql
-        self._last_params = params
+        # the status statement has no placeholders, so describing it takes no params
+        self._last_params = None if result_sql else params
 
     def _log_sql(self, sql: str, params: Sequence[Any] | dict[Any, Any] | None = None) -> None:
         if (fs_debug := os.environ.get("FAKESNOW_DEBUG")) and fs_debug != "snowflake":
